@@ -84,7 +84,9 @@ impl ConfigResolver<'_> {
                 if self.opt.no_editorconfig {
                     Ok(self.default_configuration)
                 } else {
+                    // Command line options take precedence over the editorconfig as well
                     editorconfig::parse(self.default_configuration, path)
+                        .map(|config| load_overrides(config, self.opt))
                         .context("could not parse editorconfig")
                 }
                 #[cfg(not(feature = "editorconfig"))]
@@ -111,6 +113,7 @@ impl ConfigResolver<'_> {
                         Ok(self.default_configuration)
                     } else {
                         editorconfig::parse(self.default_configuration, &PathBuf::from("*.lua"))
+                            .map(|config| load_overrides(config, self.opt))
                             .context("could not parse editorconfig")
                     }
                     #[cfg(not(feature = "editorconfig"))]
